@@ -2,15 +2,30 @@
 //! threads) under Miri with several scheduler seeds and reports every Miri finding (data race,
 //! use after free, other UB, failed content assertion) as a disagreement of kind "monitor".
 //!
-//! `miridrive --tier quick|thorough --seed <u64> --out <stats.json>
-//!            [--crate-dir <dir>] [--jobs <n>] [--seeds <n>] [--program <i>] [--verbose]`
-//! quick: the programs marked `quick` (make_unique / as_mut_slice / into_vec races, and two
-//! by-reference programs: scoped threads cloning through one shared `&HipByt`) x 4 seeds;
-//! thorough: all programs x 32 seeds. Miri seeds are `seed*1000 .. seed*1000 + n`.
-//! Every run is `cargo +nightly miri run --offline --bin miriprog -- <i>` in the crate
-//! directory with `MIRIFLAGS="-Zmiri-permissive-provenance -Zmiri-seed=<n>"` (plus
-//! `$MIRI_EXTRA_FLAGS`). No Lean driver is involved. Exit 0 = no finding, 1 = finding(s),
-//! 2 = internal error (Miri missing, build failure, …).
+//! `miridrive --tier quick|thorough --seed <u64> --out <stats.json> [--lean <conc_driver>]
+//!            [--profiles debug,nodebug] [--crate-dir <dir>] [--jobs <n>] [--seeds <n>]
+//!            [--program <i>] [--verbose]`
+//!
+//! * Two Miri PROFILES: `debug` = `cargo miri run` (dev profile, debug assertions ON),
+//!   `nodebug` = `cargo miri run --release` (debug assertions OFF, the code that ships;
+//!   hipstr's `debug_assert!(is_unique())` re-checks execute an Acquire fence that can mask a
+//!   missing synchronisation). Default: both profiles for the programs flagged `sensitive` by
+//!   `miriprog list` (gated by a uniqueness test / count read), `nodebug` only for the others.
+//!   `--profiles` restricts the set; the env var `VERIF_PROFILE` too (`release` -> nodebug only,
+//!   `debug` -> debug only).
+//! * quick: the programs marked `quick` x 4 seeds (x both profiles when sensitive, 2 seeds for
+//!   the non-sensitive ones); thorough: all programs x 32 seeds. `--seeds n` overrides.
+//!   Miri seeds are `seed*1000 .. seed*1000 + n`.
+//! * `--lean <conc_driver>`: COVERAGE cross-check against Gen/Protocol. The driver's `protocol`
+//!   command lists the descriptor-juggling functions (`name|tests_unique|assumes_unique|
+//!   reads_or_writes|loc ;; ...`); every one with a `true` flag must be declared (4th column of
+//!   `miriprog list`) by at least one program of the FULL list, and no program may declare a
+//!   name the driver does not list: otherwise a disagreement of kind "monitor", monitor
+//!   "coverage". Without `--lean` the cross-check is skipped (`"coverage_checked": false`).
+//! Every run is `cargo +nightly miri run --offline [--release] --bin miriprog -- <i>` in the
+//! crate directory with `MIRIFLAGS="-Zmiri-permissive-provenance -Zmiri-seed=<n>"` (plus
+//! `$MIRI_EXTRA_FLAGS`). Exit 0 = no finding, 1 = finding(s), 2 = internal error (Miri missing,
+//! build failure, unusable Lean driver with no finding, ...).
 
 use std::collections::BTreeMap;
 use std::process::Command;
@@ -32,17 +47,44 @@ fn esc(s: &str) -> String {
     o
 }
 
+#[derive(Clone, Copy, PartialEq, Eq, PartialOrd, Ord, Debug)]
+enum Profile {
+    Debug,
+    NoDebug,
+}
+
+impl Profile {
+    fn name(self) -> &'static str {
+        match self {
+            Profile::Debug => "miri-debug",
+            Profile::NoDebug => "miri-nodebug",
+        }
+    }
+    fn cargo_flag(self) -> &'static str {
+        match self {
+            Profile::Debug => "",
+            Profile::NoDebug => " --release",
+        }
+    }
+}
+
 struct Run {
     prog: usize,
+    profile: Profile,
     seed: u64,
     /// `None` = ok, else (monitor kind, first error lines)
     finding: Option<(String, String)>,
     ms: u128,
 }
 
-fn miri(dir: &str, flags: &str, arg: &str) -> std::io::Result<(bool, String, String)> {
+fn miri(dir: &str, profile: Profile, flags: &str, arg: &str) -> std::io::Result<(bool, String, String)> {
+    let mut args = vec!["+nightly", "miri", "run", "--offline", "--quiet"];
+    if profile == Profile::NoDebug {
+        args.push("--release");
+    }
+    args.extend(["--bin", "miriprog", "--", arg]);
     let out = Command::new("cargo")
-        .args(["+nightly", "miri", "run", "--offline", "--quiet", "--bin", "miriprog", "--", arg])
+        .args(&args)
         .current_dir(dir)
         .env("MIRIFLAGS", flags)
         .output()?;
@@ -78,6 +120,51 @@ fn classify(stderr: &str) -> (String, String) {
     (kind.to_string(), text)
 }
 
+struct ProtoFn {
+    name: String,
+    relevant: bool,
+    loc: String,
+}
+
+/// Asks the Lean driver for Gen/Protocol (`protocol` command, one output line).
+fn protocol(lean: &str) -> Result<Vec<ProtoFn>, String> {
+    use std::io::Write;
+    let mut child = Command::new(lean)
+        .stdin(std::process::Stdio::piped())
+        .stdout(std::process::Stdio::piped())
+        .spawn()
+        .map_err(|e| format!("cannot spawn {lean}: {e}"))?;
+    child
+        .stdin
+        .take()
+        .unwrap()
+        .write_all(b"protocol\n")
+        .map_err(|e| format!("write to {lean}: {e}"))?;
+    let out = child.wait_with_output().map_err(|e| format!("wait for {lean}: {e}"))?;
+    let text = String::from_utf8_lossy(&out.stdout);
+    let line = text.lines().next().unwrap_or("");
+    let mut fns = vec![];
+    for entry in line.split(";;") {
+        let entry = entry.trim();
+        if entry.is_empty() {
+            continue;
+        }
+        let f: Vec<&str> = entry.split('|').collect();
+        if f.len() != 5 || !f[1..4].iter().all(|b| *b == "true" || *b == "false") {
+            return Err(format!("unexpected `protocol` entry `{entry}`"));
+        }
+        fns.push(ProtoFn {
+            name: f[0].trim().to_string(),
+            relevant: f[1..4].iter().any(|b| *b == "true"),
+            loc: f[4].trim().to_string(),
+        });
+    }
+    if fns.is_empty() {
+        return Err(format!("`protocol` answered nothing usable: `{}`", line.chars().take(120).collect::<String>()));
+    }
+    Ok(fns)
+}
+
 fn main() {
     let mut tier = "quick".to_string();
     let mut seed: u64 = 1;
@@ -87,6 +174,8 @@ fn main() {
     let mut nseeds: Option<u64> = None;
     let mut only: Option<usize> = None;
     let mut verbose = false;
+    let mut lean: Option<String> = None;
+    let mut profiles_arg: Option<String> = None;
     let mut args = std::env::args().skip(1);
     while let Some(a) = args.next() {
         let mut val = || args.next().unwrap_or_else(|| { eprintln!("missing value for {a}"); std::process::exit(2) });
@@ -98,12 +187,42 @@ fn main() {
             "--jobs" => jobs = val().parse().unwrap_or(4).max(1),
             "--seeds" => nseeds = val().parse().ok(),
             "--program" => only = val().parse().ok(),
-            "--lean" | "--replay" => { let _ = val(); }
+            "--lean" => lean = Some(val()),
+            "--profiles" => profiles_arg = Some(val()),
+            "--replay" => { let _ = val(); }
             "--verbose" => verbose = true,
             other => { eprintln!("unknown argument {other}"); std::process::exit(2) }
         }
     }
-    let nseeds = nseeds.unwrap_or(if tier == "thorough" { 32 } else { 4 });
+    let default_seeds: u64 = if tier == "thorough" { 32 } else { 4 };
+    // which Miri profiles may run at all
+    let mut allowed: Vec<Profile> = match profiles_arg.as_deref() {
+        None => vec![Profile::Debug, Profile::NoDebug],
+        Some(l) => l
+            .split(',')
+            .map(|w| match w.trim() {
+                "debug" => Profile::Debug,
+                "nodebug" => Profile::NoDebug,
+                other => {
+                    eprintln!("miridrive: unknown profile `{other}` (debug, nodebug)");
+                    std::process::exit(2)
+                }
+            })
+            .collect(),
+    };
+    let verif_profile = std::env::var("VERIF_PROFILE").ok();
+    match verif_profile.as_deref() {
+        Some("release") => allowed.retain(|p| *p == Profile::NoDebug),
+        Some("debug") => allowed.retain(|p| *p == Profile::Debug),
+        _ => {}
+    }
+    // VERIF_PROFILE / --profiles given explicitly: every selected program runs in what is left;
+    // otherwise the non-sensitive programs only run without debug assertions
+    let explicit = profiles_arg.is_some() || matches!(verif_profile.as_deref(), Some("release") | Some("debug"));
+    if allowed.is_empty() {
+        eprintln!("miridrive: no Miri profile left (--profiles / VERIF_PROFILE)");
+        std::process::exit(2);
+    }
     let extra = std::env::var("MIRI_EXTRA_FLAGS").unwrap_or_default();
     let base_flags = format!("-Zmiri-permissive-provenance {extra}");
     let t0 = Instant::now();
@@ -114,31 +233,65 @@ fn main() {
         eprintln!("miridrive: `cargo +nightly miri` is not available");
         std::process::exit(2);
     }
-    // builds miriprog for Miri (cold cost) and gives the program list
-    let (ok, list, err) = match miri(&dir, &base_flags, "list") {
-        Ok(r) => r,
-        Err(e) => { eprintln!("miridrive: cannot run cargo: {e}"); std::process::exit(2) }
-    };
-    let build_ms = t0.elapsed().as_millis();
-    if !ok {
-        eprintln!("miridrive: building/listing miriprog under Miri failed:\n{err}");
-        std::process::exit(2);
+    // builds miriprog for Miri in every profile used (cold cost) and gives the program list
+    let mut list = String::new();
+    let mut build_ms_by_profile: Vec<(Profile, u128)> = vec![];
+    for &pr in &allowed {
+        let t = Instant::now();
+        let (ok, out, err) = match miri(&dir, pr, &base_flags, "list") {
+            Ok(r) => r,
+            Err(e) => { eprintln!("miridrive: cannot run cargo: {e}"); std::process::exit(2) }
+        };
+        build_ms_by_profile.push((pr, t.elapsed().as_millis()));
+        if !ok {
+            eprintln!("miridrive: building/listing miriprog under Miri ({}) failed:\n{err}", pr.name());
+            std::process::exit(2);
+        }
+        list = out;
     }
-    let progs: Vec<(usize, bool, String)> = list.lines().filter_map(|l| {
-        let mut it = l.splitn(3, '\t');
-        Some((it.next()?.parse().ok()?, it.next()? == "quick", it.next()?.to_string()))
+    let build_ms = t0.elapsed().as_millis();
+    struct P {
+        idx: usize,
+        quick: bool,
+        desc: String,
+        fns: Vec<String>,
+        sensitive: bool,
+    }
+    let progs: Vec<P> = list.lines().filter_map(|l| {
+        let mut it = l.splitn(5, '\t');
+        Some(P {
+            idx: it.next()?.parse().ok()?,
+            quick: it.next()? == "quick",
+            desc: it.next()?.to_string(),
+            fns: it.next()?.split(',').filter(|f| !f.is_empty()).map(str::to_string).collect(),
+            sensitive: it.next()? == "sensitive",
+        })
     }).collect();
-    let selected: Vec<&(usize, bool, String)> = progs.iter()
-        .filter(|p| match only { Some(i) => p.0 == i, None => tier == "thorough" || p.1 })
+    let selected: Vec<&P> = progs.iter()
+        .filter(|p| match only { Some(i) => p.idx == i, None => tier == "thorough" || p.quick })
         .collect();
     if selected.is_empty() {
         eprintln!("miridrive: no program selected");
         std::process::exit(2);
     }
-    let mut queue: Vec<(usize, u64)> = vec![];
+    let profiles_of = |p: &P| -> Vec<Profile> {
+        if explicit || p.sensitive {
+            allowed.clone()
+        } else if allowed.contains(&Profile::NoDebug) {
+            vec![Profile::NoDebug]
+        } else {
+            allowed.clone()
+        }
+    };
+    let seeds_of = |p: &P| -> u64 {
+        nseeds.unwrap_or(if tier != "thorough" && !p.sensitive { 2 } else { default_seeds })
+    };
+    let mut queue: Vec<(usize, Profile, u64)> = vec![];
     for p in &selected {
-        for k in 0..nseeds {
-            queue.push((p.0, seed * 1000 + k));
+        for pr in profiles_of(p) {
+            for k in 0..seeds_of(p) {
+                queue.push((p.idx, pr, seed * 1000 + k));
+            }
         }
     }
     queue.reverse();
@@ -148,67 +301,119 @@ fn main() {
     for _ in 0..jobs {
         let (queue, results, dir, base_flags) = (queue.clone(), results.clone(), dir.clone(), base_flags.clone());
         workers.push(std::thread::spawn(move || loop {
-            let Some((prog, s)) = queue.lock().unwrap().pop() else { break };
+            let Some((prog, profile, s)) = queue.lock().unwrap().pop() else { break };
             let t = Instant::now();
             let flags = format!("{base_flags} -Zmiri-seed={s}");
-            let finding = match miri(&dir, &flags, &prog.to_string()) {
+            let finding = match miri(&dir, profile, &flags, &prog.to_string()) {
                 Ok((true, stdout, _)) if stdout.contains(&format!("ok {prog}")) => None,
                 Ok((_, _, stderr)) => Some(classify(&stderr)),
                 Err(e) => Some(("error".to_string(), format!("cannot run cargo: {e}"))),
             };
-            results.lock().unwrap().push(Run { prog, seed: s, finding, ms: t.elapsed().as_millis() });
+            results.lock().unwrap().push(Run { prog, profile, seed: s, finding, ms: t.elapsed().as_millis() });
         }));
     }
     for w in workers {
         let _ = w.join();
     }
     let mut results = std::mem::take(&mut *results.lock().unwrap());
-    results.sort_by_key(|r| (r.prog, r.seed));
+    results.sort_by_key(|r| (r.prog, r.profile, r.seed));
 
     let mut dist: BTreeMap<String, usize> = BTreeMap::new();
     let mut internal = false;
     let mut disagreements = vec![];
     let mut samples = vec![];
     for p in &selected {
-        let runs: Vec<&Run> = results.iter().filter(|r| r.prog == p.0).collect();
-        let hits: Vec<&&Run> = runs.iter().filter(|r| r.finding.is_some()).collect();
-        for r in &runs {
-            let k = r.finding.as_ref().map_or("ok".to_string(), |f| f.0.clone());
-            *dist.entry(k).or_default() += 1;
+        let all_runs: Vec<&Run> = results.iter().filter(|r| r.prog == p.idx).collect();
+        let mut per_profile = vec![];
+        for pr in profiles_of(p) {
+            let runs: Vec<&&Run> = all_runs.iter().filter(|r| r.profile == pr).collect();
+            let hits: Vec<&&&Run> = runs.iter().filter(|r| r.finding.is_some()).collect();
+            for r in &runs {
+                let k = r.finding.as_ref().map_or("ok".to_string(), |f| f.0.clone());
+                *dist.entry(format!("{}:{k}", pr.name())).or_default() += 1;
+            }
+            per_profile.push(format!("\"{}\":{{\"runs\":{},\"findings\":{}}}", pr.name(), runs.len(), hits.len()));
+            if let Some(first) = hits.first() {
+                let (kind, text) = first.finding.clone().unwrap();
+                if kind == "error" {
+                    internal = true;
+                }
+                let seeds: Vec<String> = hits.iter().map(|r| r.seed.to_string()).collect();
+                let kinds: Vec<String> = {
+                    let mut m: BTreeMap<String, usize> = BTreeMap::new();
+                    for r in &hits { *m.entry(r.finding.as_ref().unwrap().0.clone()).or_default() += 1; }
+                    m.into_iter().map(|(k, n)| format!("\"{k}\":{n}")).collect()
+                };
+                eprintln!("miridrive: MONITOR {kind} [{}] on program {} `{}`: {}/{} seeds hit (first seed {}): {}",
+                    pr.name(), p.idx, p.desc, hits.len(), runs.len(), first.seed, text);
+                disagreements.push(format!(
+                    "{{\"kind\":\"monitor\",\"monitor\":\"{}\",\"input\":[\"miriprog {}: {}\"],\"expected\":\"no data race, use after free or other undefined behaviour, and every handle reads its expected content, under every schedule\",\"observed\":\"{}\",\"profile\":\"{}\",\"program\":{},\"seed\":{},\"seeds_hit\":[{}],\"hit\":{},\"runs\":{},\"kinds\":{{{}}},\"replay\":\"cd {} && MIRIFLAGS='{} -Zmiri-seed={}' cargo +nightly miri run --offline{} --bin miriprog -- {}\"}}",
+                    kind, p.idx, esc(&p.desc), esc(&text), pr.name(), p.idx, first.seed, seeds.join(","), hits.len(), runs.len(),
+                    kinds.join(","), esc(&dir), esc(base_flags.trim()), first.seed, pr.cargo_flag(), p.idx
+                ));
+            } else if verbose {
+                eprintln!("miridrive: program {} [{}] `{}`: {} seeds ok", p.idx, pr.name(), p.desc, runs.len());
+            }
         }
         samples.push(format!(
-            "{{\"program\":{},\"description\":\"{}\",\"runs\":{},\"findings\":{},\"mean_ms\":{}}}",
-            p.0, esc(&p.2), runs.len(), hits.len(),
-            runs.iter().map(|r| r.ms).sum::<u128>() / runs.len().max(1) as u128
+            "{{\"program\":{},\"description\":\"{}\",\"sensitive\":{},\"profiles\":{{{}}},\"mean_ms\":{}}}",
+            p.idx, esc(&p.desc), p.sensitive, per_profile.join(","),
+            all_runs.iter().map(|r| r.ms).sum::<u128>() / all_runs.len().max(1) as u128
         ));
-        if let Some(first) = hits.first() {
-            let (kind, text) = first.finding.clone().unwrap();
-            if kind == "error" {
-                internal = true;
+    }
+
+    // ---- coverage cross-check against Gen/Protocol (needs the Lean driver) ----
+    let mut lean_error: Option<String> = None;
+    let mut coverage_json = "null".to_string();
+    let mut coverage_checked = false;
+    if let Some(l) = &lean {
+        match protocol(l) {
+            Err(e) => lean_error = Some(e),
+            Ok(fns) => {
+                coverage_checked = true;
+                let mut cov = vec![];
+                for f in &fns {
+                    let by: Vec<String> = progs.iter().filter(|p| p.fns.contains(&f.name)).map(|p| p.idx.to_string()).collect();
+                    cov.push(format!("\"{}\":[{}]", esc(&f.name), by.join(",")));
+                    if f.relevant && by.is_empty() {
+                        eprintln!("miridrive: MONITOR coverage: no program exercises `{}` ({})", f.name, f.loc);
+                        disagreements.push(format!(
+                            "{{\"kind\":\"monitor\",\"monitor\":\"coverage\",\"input\":[\"{} ({})\"],\"expected\":\"every descriptor-juggling function of Gen/Protocol is exercised by at least one miriprog program\",\"observed\":\"no program declares it\",\"profile\":\"miri\"}}",
+                            esc(&f.name), esc(&f.loc)
+                        ));
+                    }
+                }
+                coverage_json = format!("{{{}}}", cov.join(","));
+                for p in &progs {
+                    for name in &p.fns {
+                        if !fns.iter().any(|f| &f.name == name) {
+                            eprintln!("miridrive: MONITOR coverage: program {} declares `{name}`, which Gen/Protocol does not list (stale name)", p.idx);
+                            disagreements.push(format!(
+                                "{{\"kind\":\"monitor\",\"monitor\":\"coverage\",\"input\":[\"miriprog {}: {}\"],\"expected\":\"every function a program declares is a function of Gen/Protocol\",\"observed\":\"stale name `{}`\",\"profile\":\"miri\"}}",
+                                p.idx, esc(&p.desc), esc(name)
+                            ));
+                        }
+                    }
+                }
             }
-            let seeds: Vec<String> = hits.iter().map(|r| r.seed.to_string()).collect();
-            let kinds: Vec<String> = {
-                let mut m: BTreeMap<String, usize> = BTreeMap::new();
-                for r in &hits { *m.entry(r.finding.as_ref().unwrap().0.clone()).or_default() += 1; }
-                m.into_iter().map(|(k, n)| format!("\"{k}\":{n}")).collect()
-            };
-            eprintln!("miridrive: MONITOR {kind} on program {} `{}`: {}/{} seeds hit (first seed {}): {}",
-                p.0, p.2, hits.len(), runs.len(), first.seed, text);
-            disagreements.push(format!(
-                "{{\"kind\":\"monitor\",\"monitor\":\"{}\",\"input\":[\"miriprog {}: {}\"],\"expected\":\"no data race, use after free or other undefined behaviour, and every handle reads its expected content, under every schedule\",\"observed\":\"{}\",\"profile\":\"miri\",\"program\":{},\"seeds_hit\":[{}],\"hit\":{},\"runs\":{},\"kinds\":{{{}}},\"replay\":\"cd {} && MIRIFLAGS='{} -Zmiri-seed={}' cargo +nightly miri run --offline --bin miriprog -- {}\"}}",
-                kind, p.0, esc(&p.2), esc(&text), p.0, seeds.join(","), hits.len(), runs.len(),
-                kinds.join(","), esc(&dir), esc(base_flags.trim()), first.seed, p.0
-            ));
-        } else if verbose {
-            eprintln!("miridrive: program {} `{}`: {} seeds ok", p.0, p.2, runs.len());
+        }
+        if let Some(e) = &lean_error {
+            eprintln!("miridrive: Lean driver unusable ({e}): coverage cross-check skipped");
         }
     }
     let total_ms = t0.elapsed().as_millis();
     let dist_s: Vec<String> = dist.iter().map(|(k, n)| format!("\"{k}\":{n}")).collect();
     let json = format!(
-        "{{\"evaluations\":{},\"distinct_nontrivial\":{},\"rule\":\"Miri (data-race detector, borrow tracker, allocation tracker) reports nothing and every content assertion holds, for every program and scheduler seed\",\"exhaustive\":false,\"distribution\":{{{}}},\"samples\":[{}],\"disagreements\":[{}],\"tier\":\"{}\",\"seed\":{},\"seeds_per_program\":{},\"programs\":{},\"miri_version\":\"{}\",\"miriflags\":\"{}\",\"build_and_list_ms\":{},\"runtime_ms\":{},\"jobs\":{}}}\n",
+        "{{\"evaluations\":{},\"distinct_nontrivial\":{},\"rule\":\"Miri (data-race detector, borrow tracker, allocation tracker) reports nothing and every content assertion holds, for every program and scheduler seed\",\"exhaustive\":false,\"distribution\":{{{}}},\"samples\":[{}],\"disagreements\":[{}],\"tier\":\"{}\",\"seed\":{},\"seeds_per_program\":{},\"programs\":{},\"programs_total\":{},\"profiles\":[{}],\"verif_profile\":{},\"coverage_checked\":{},\"coverage\":{},\"lean_error\":{},\"miri_version\":\"{}\",\"miriflags\":\"{}\",\"build_and_list_ms\":{},\"build_ms_by_profile\":{{{}}},\"runtime_ms\":{},\"jobs\":{}}}\n",
         results.len(), selected.len(), dist_s.join(","), samples.join(","), disagreements.join(","),
-        esc(&tier), seed, nseeds, selected.len(), esc(&version), esc(base_flags.trim()), build_ms, total_ms, jobs
+        esc(&tier), seed, nseeds.unwrap_or(default_seeds), selected.len(), progs.len(),
+        allowed.iter().map(|p| format!("\"{}\"", p.name())).collect::<Vec<_>>().join(","),
+        verif_profile.as_ref().map_or("null".to_string(), |v| format!("\"{}\"", esc(v))),
+        coverage_checked, coverage_json,
+        lean_error.as_ref().map_or("null".to_string(), |e| format!("\"{}\"", esc(e))),
+        esc(&version), esc(base_flags.trim()), build_ms,
+        build_ms_by_profile.iter().map(|(p, ms)| format!("\"{}\":{}", p.name(), ms)).collect::<Vec<_>>().join(","),
+        total_ms, jobs
     );
     if let Some(o) = &out {
         if let Err(e) = std::fs::write(o, &json) {
@@ -218,7 +423,18 @@ fn main() {
     } else {
         print!("{json}");
     }
-    eprintln!("miridrive: {} programs x {} seeds = {} Miri runs, {} program(s) with findings, build+list {} ms, total {} ms",
-        selected.len(), nseeds, results.len(), disagreements.len(), build_ms, total_ms);
-    std::process::exit(if internal { 2 } else if disagreements.is_empty() { 0 } else { 1 });
+    eprintln!("miridrive: {} programs, {} Miri runs (profiles {}), {} finding(s), coverage {}, build+list {} ms, total {} ms",
+        selected.len(), results.len(),
+        allowed.iter().map(|p| p.name()).collect::<Vec<_>>().join("+"),
+        disagreements.len(),
+        if coverage_checked { "checked" } else { "not checked" },
+        build_ms, total_ms);
+    let code = if !disagreements.is_empty() && !internal {
+        1
+    } else if internal || lean_error.is_some() {
+        2
+    } else {
+        0
+    };
+    std::process::exit(code);
 }
